@@ -290,7 +290,7 @@ impl Prop for C14 {
     }
     fn runs(&self, tier: Tier) -> u64 {
         match tier {
-            Tier::Quick => 10_000,
+            Tier::Quick => 30_000,
             Tier::Thorough => 300_000,
         }
     }
